@@ -45,12 +45,19 @@ func c14Level1(M, L int64, chunks []int, readChunk int) func(w *World) []Violati
 			next++
 			n, err := b.Write(p)
 			wantOverflow := L > 0 && int64(len(accepted)+c) > L
-			if wantOverflow {
+			if wantOverflow && !overflow {
 				if !errors.Is(err, ErrMaximumSizeExceeded) || n != 0 {
 					add("overflow-not-reported", fmt.Sprintf("write of %d bytes after %d accepted returned (%d, %v)", c, len(accepted), n, err))
 				}
 				overflow = true
-				break
+				continue // the response middleware swallows the error: later pieces are still written
+			}
+			if overflow {
+				// whatever the buffer does with pieces after an overflow, it must not fail otherwise or leave anything behind
+				if err != nil && !errors.Is(err, ErrMaximumSizeExceeded) {
+					add("write-after-overflow-failed", fmt.Sprintf("write of %d bytes after an overflow returned (%d, %v)", c, n, err))
+				}
+				continue
 			}
 			if err != nil || n != c {
 				add("write-rejected", fmt.Sprintf("write of %d bytes after %d accepted returned (%d, %v)", c, len(accepted), n, err))
@@ -218,6 +225,17 @@ func c14Responder(req *http.Request, body []byte) *memnet.Response {
 	case "split":
 		if n > 4 {
 			r.Gaps = append(r.Gaps, memnet.Gap{Offset: hl + 4, Wait: 50 * time.Millisecond})
+		}
+	default:
+		// "at:<o1>,<o2>,...": pieces end at the given body offsets
+		if strings.HasPrefix(pat, "at:") {
+			for _, f := range strings.Split(strings.TrimPrefix(pat, "at:"), ",") {
+				o := 0
+				fmt.Sscanf(f, "%d", &o)
+				if o > 0 && o < n {
+					r.Gaps = append(r.Gaps, memnet.Gap{Offset: hl + o, Wait: 50 * time.Millisecond})
+				}
+			}
 		}
 	}
 	return r
@@ -471,6 +489,21 @@ func c14Cases(tier string) []ECase {
 						cases = append(cases, ECase{Name: "L2 " + in.name(), Class: fmt.Sprintf("L2 svc=%d plain", si), Run: c14Level2(in)})
 					}
 				}
+				if s.respBuf && s.Lresp > 0 && rp == "one" && rl == 0 {
+					// a piece that takes the body over the limit followed by a smaller one that would fit again,
+					// with the first piece filling the memory buffer exactly or spilling
+					for _, x := range []int{int(s.M), int(s.M) + 1} {
+						if x < 1 {
+							x = 1
+						}
+						L, y := int(s.Lresp), 2
+						if x+y > L {
+							continue
+						}
+						in := c14in{svc: si, reqLen: 0, reqPat: "one", respLen: x + L + y, respPat: fmt.Sprintf("at:%d,%d", x, x+L), kind: "plain"}
+						cases = append(cases, ECase{Name: "L2 " + in.name(), Class: fmt.Sprintf("L2 svc=%d overflow-then-fit", si), Run: c14Level2(in)})
+					}
+				}
 				for _, kind := range []string{"sse", "upgrade", "cut", "abort-upload", "abort-wait"} {
 					in := c14in{svc: si, reqLen: rl, reqPat: rp, respLen: 9, respPat: "one", kind: kind}
 					cases = append(cases, ECase{Name: "L2 " + in.name(), Class: fmt.Sprintf("L2 svc=%d %s", si, kind), Run: c14Level2(in)})
@@ -487,7 +520,7 @@ func checkC14(t *testing.T, job *Job, res *Result) {
 	if job.Replay != nil {
 		tier = job.Replay.Tier
 	}
-	res.Rule = "level 1: Buffer directly: memory limit M in {0,1,2,3,5} x total limit L in {0,M-1,M,M+1,2M+1} x body length 0..L+2 (<=7 quick, <=9 thorough) x EVERY composition of the body into write chunks x read-back chunking {1,2,all}; level 2: through the handler chain: request/response buffering on/off x (M,Lreq,Lresp) x body lengths {0,M,M+1,L,L+1,L+5,9} x chunk patterns {one, bytewise, M|rest} with virtual gaps x endings {success, 413, 500, target cut mid-body, client abort mid-upload, client abort while waiting} x {plain, event stream with timed events, upgrade}; oracle: accepted/overflow decisions, memory bound, spill presence, exact bytes, timing on the virtual clock, no spill file left"
+	res.Rule = "level 1: Buffer directly: memory limit M in {0,1,2,3,5} x total limit L in {0,M-1,M,M+1,2M+1} x body length 0..L+2 (<=7 quick, <=9 thorough) x EVERY composition of the body into write chunks x read-back chunking {1,2,all}; level 2: through the handler chain: request/response buffering on/off x (M,Lreq,Lresp) x body lengths {0,M,M+1,L,L+1,L+5,9} x chunk patterns {one, bytewise, M|rest, piece over the limit followed by a piece that fits again} with virtual gaps x endings {success, 413, 500, target cut mid-body, client abort mid-upload, client abort while waiting} x {plain, event stream with timed events, upgrade}; oracle: accepted/overflow decisions, memory bound, spill presence, exact bytes, timing on the virtual clock, no spill file left"
 	res.Bounds = "see rule"
 	runE(t, job, res, &ESpec{Prop: "C14", Setup: c14Setup, Cases: c14Cases(tier), Batch: 300})
 }
